@@ -6,7 +6,9 @@ RTFFigure: every member of a fixed list of invalid values of the field's kind (u
 wrong-case keyword, 0, -1, -0.5, font 0 / 11 / -1, margin lists of length 0/1/5/7/12; thorough: also
 padded / upper-case / near-miss keywords, -0.0, -1e-9, -100, margin lengths 2/3/4/8) at every
 position of every shape {scalar, list of 1..3, 2x2 matrix, 1x3 matrix} (thorough: also 3x1 and 2x3),
-all other positions holding valid values; plus the RTFDocument-level rules (df together with a
+all other positions holding valid values - rotated members of the legal set and, where '' is a legal "no value"
+spelling (colours, border styles, format, justification, vertical alignment), also '' at all other positions / at the
+previous / at the next position; plus the RTFDocument-level rules (df together with a
 figure, neither, group_by/page_by/subline_by column missing from the data at every list position
 and in every section, new_page without page_by, df/rtf_body/rtf_column_header list length
 mismatches, missing figure file at every list position).
@@ -115,12 +117,33 @@ def npos(shape: str) -> int:
     return n
 
 
-def make_value(kind: str, shape: str, rot: int, pos=None, bad=None):
-    """Valid fillers valid[(i+rot) % n] at every position i; `bad` at position `pos` when given."""
+# the legal "no value" spelling of a kind: '' means "no colour", "no border", "no formatting" (documented; it is the
+# default of several fields) - and rtflite's code tables also list '' for justification and vertical alignment.
+# An invalid value must be rejected also when its neighbours are such empty entries (a validator that skips or stops
+# at '' is the classic slip), so the empty spelling is placed before / after / all around the invalid value.
+EMPTY = {"colour": "", "border": "", "format": "", "just": "", "valign": ""}
+EMPTY_DOCUMENTED = ("colour", "border", "format")       # for the others the empty neighbour is explored only if its twin constructs
+SCHEMES = ("empty-others", "empty-prev", "empty-next")
+_KEEP = object()
+
+
+def make_value(kind: str, shape: str, rot: int, pos=None, bad=_KEEP, scheme=None):
+    """Valid fillers valid[(i+rot) % n] at every position i; with a scheme, the legal empty spelling at all other
+    positions / the previous / the next position relative to `pos`; `bad` at position `pos` when given."""
     valid = KINDS[kind]["valid"]
     n = npos(shape)
     flat = [valid[(i + rot) % len(valid)] for i in range(n)]
-    if pos is not None:
+    if scheme is not None:
+        e = EMPTY[kind]
+        if scheme == "empty-others":
+            flat = [flat[i] if i == pos else e for i in range(n)]
+        elif scheme == "empty-prev":
+            flat[pos - 1] = e
+        elif scheme == "empty-next":
+            flat[pos + 1] = e
+        else:
+            raise ValueError(scheme)
+    if bad is not _KEEP:
         flat[pos] = bad
     dims = SHAPES[shape]
     if dims is None:
@@ -129,6 +152,17 @@ def make_value(kind: str, shape: str, rot: int, pos=None, bad=None):
         return flat
     r, c = dims
     return [flat[i * c:(i + 1) * c] for i in range(r)]
+
+
+def schemes_at(kind: str, shape: str, pos: int) -> list:
+    if kind not in EMPTY or npos(shape) < 2:
+        return []
+    out = ["empty-others"]
+    if pos > 0 and npos(shape) > 2:
+        out.append("empty-prev")
+    if pos + 1 < npos(shape) and npos(shape) > 2:
+        out.append("empty-next")
+    return out
 
 
 # --------------------------------------------------------------------------- outcome of one constructor call
@@ -207,7 +241,8 @@ def eval_field(case: dict) -> dict:
     where = f"{comp}.{field}"
     viol, cnt = [], {}
     extra = {"text": "T"} if comp not in ("RTFPage", "RTFFigure", "RTFBody") else {}
-    ctl_value = make_value(kind, shape, rot)
+    scheme = case.get("scheme")
+    ctl_value = make_value(kind, shape, rot, case.get("pos"), scheme=scheme)      # the twin: valid value at `pos` too
     ctl = attempt(lambda: component(comp, **{field: ctl_value}, **extra))
     required = case.get("required", True)
     if case.get("ctl"):
@@ -224,7 +259,7 @@ def eval_field(case: dict) -> dict:
                          "detail": f"{where}: VALID value {ctl_value!r} ({shape}) did not construct: {ctl[1]}"})
         return {"viol": viol, "nt": ctl[0] == "constructed", "cnt": cnt}
     bad = case["bad"]
-    value = make_value(kind, shape, rot, case["pos"], bad)
+    value = make_value(kind, shape, rot, case["pos"], bad, scheme)
     if ctl[0] != "constructed":
         # the shape itself is not accepted here: the invalid twin says nothing about the bad value
         return {"viol": [], "nt": False, "cnt": {"vacuous-twin-control-not-constructed": 1}}
@@ -232,6 +267,8 @@ def eval_field(case: dict) -> dict:
     judge(where, f"{bad!r} at position {case['pos']} of {shape} value {value!r}", res, False, viol, cnt)
     cnt["invalid-" + shape] = 1
     cnt["invalid-kind-" + kind] = 1
+    if scheme:
+        cnt["invalid-with-" + scheme] = 1
     if shape in MATRIX and case["pos"] > 0:
         cnt["invalid-inner-matrix-position"] = 1
     sample = None
@@ -373,14 +410,27 @@ def field_cases(comp, fields, all_shapes, rots, extra=False):
                 for pos in range(npos(shape)):
                     for b in KINDS[kind]["invalid"] + (EXTRA_INVALID[kind] if extra else []):
                         bad.append({**base, "rot": rot % nvalid, "pos": pos, "bad": b})
+                    for scheme in schemes_at(kind, shape, pos):
+                        sbase = dict(base)
+                        if kind not in EMPTY_DOCUMENTED:
+                            sbase["required"] = False
+                        ctl.append({**sbase, "rot": rot % nvalid, "pos": pos, "scheme": scheme, "ctl": True})
+                        for b in KINDS[kind]["invalid"] + (EXTRA_INVALID[kind] if extra else []):
+                            bad.append({**sbase, "rot": rot % nvalid, "pos": pos, "bad": b, "scheme": scheme})
     # distinct (rot % nvalid may collide for short valid lists)
     seen, out = set(), []
     for c in bad:
-        k = (c["field"], c["shape"], c["rot"], c["pos"], repr(c["bad"]))
+        k = (c["field"], c["shape"], c["rot"], c["pos"], repr(c["bad"]), c.get("scheme"))
         if k not in seen:
             seen.add(k)
             out.append(c)
-    return ctl, out
+    seen, cout = set(), []
+    for c in ctl:
+        k = (c["field"], c["shape"], c["rot"], c.get("pos"), c.get("scheme"))
+        if k not in seen:
+            seen.add(k)
+            cout.append(c)
+    return cout, out
 
 
 def doc_cases(thorough: bool):
@@ -471,7 +521,7 @@ def plan(run):
     # vacuity guards
     need = ["control-constructed", "rejected-ValueError", "rejected-FileNotFoundError", "invalid-inner-matrix-position",
             "invalid-scalar", "invalid-list3", "invalid-m2x2", "invalid-m1x3"]
-    need += ["invalid-kind-" + k for k in KINDS]
+    need += ["invalid-kind-" + k for k in KINDS] + ["invalid-with-" + x for x in SCHEMES]
     need += ["invalid-doc-" + r for r in ("figure-missing", "group-missing", "new-page", "df-and-figure", "neither", "section-length")]
     for n in need:
         if not run.cnt.get(n):
